@@ -953,6 +953,7 @@ def run(ctx):
 
 
 SELFTESTS = [
+    (rule_self_referential_not_copied, ["c08_self_bad.c"], ["c08_self_good.c"], "copied-by-value"),
     (rule_resource_typestate, ["c08_null_bad.c"], ["c08_null_good.c"], "f@fclose"),
     (rule_option_tables, ["c08_opts_bad.c"], ["c08_opts_good.c"], "--dump"),
     (rule_exit_status, ["c08_opts_bad.c"], ["c08_opts_good.c"], "return#"),
